@@ -339,8 +339,16 @@ func (p *Path) violationNow(id, note string) {
 	a.Sat++
 	v := Violation{AssertID: id, Harness: p.eng.Opt.Harness, Where: note, Notes: append([]string{note}, p.notes...)}
 	if !p.eng.Opt.Concrete {
-		if p.check(p.ctx.True) == Sat {
+		switch p.check(p.ctx.True) {
+		case Sat:
 			p.fillModel(&v)
+		case Unsat:
+			// the path condition is unsatisfiable: not a reachable event
+			a.Checked--
+			a.Sat--
+			p.end("ASSUMED-AWAY", "")
+		default:
+			v.Notes = append(v.Notes, "path condition satisfiability unknown")
 		}
 	}
 	v.Trace = append([]int{}, p.trace...)
